@@ -2,6 +2,10 @@
 (* C06. Algorithm-level model of src/core/cycle_detector.go (DFS with `partial` / `complete` sets and  *)
 (* the `done` flag that tells callers whether the returned cycle is already closed), checked against   *)
 (* the property-level definition of "the resolved dependency graph contains a cycle".                  *)
+(* The marks (`partial`, `complete`) are locals of one Check: a pass has no memory. The build keeps one  *)
+(* detector for its whole life and runs Check repeatedly while dependencies resolve, so the binding     *)
+(* also runs a pass on the graph without edges and a second pass of the SAME detector on the resolved   *)
+(* graph; both must answer as this model (memoryless) does.                                             *)
 (* One initial state per input graph; the invariant prints each case for replay into the real code.    *)
 EXTENDS Naturals, Sequences, FiniteSets, TLC, Json, SequencesExt
 CONSTANTS N,            \* number of targets
